@@ -16,6 +16,14 @@ from . import common
 from .common import PKG_DIM, SCALAR_KIND, VEC_PARAMS
 
 PID = "C01"
+EXPLANATION = (
+    "bounded SMT checking of the symbolically executed real code: for every dispatch_map entry of every compute module (read from /repo at run time) the "
+    "module's dispatch entry is executed on object-backend vectors whose coordinates are z3 terms, once stored in the entry's coordinate systems and once "
+    "in Cartesian coordinates holding the same geometric vector; z3 (QF_NRA) decides that both results denote the same value for all real operands of the "
+    "representable domain (including spacelike vectors stored with a negative tau for the unary Lorentz modules and for lower-dimensional vector "
+    "operations on tau-stored 4D operands) and that every sub-expression is defined there"
+)
+BOUNDS = {"semantics": "exact reals", "domain": "rho>0, -pi<phi<=pi, 0<theta<pi, off-axis for theta/eta, t>=0 for tau storage (tau of either sign where a family says @spacelike), exact result representable in the returned system", "outside": "isclose (system-dependent by definition, C12); float64 rounding"}
 
 # operations whose documented contract is to leave higher stored coordinates untouched
 PASS_THROUGH_EXCEPTIONS = {("planar", "scale"), ("planar", "transform2D"), ("spatial", "scale"), ("spatial", "transform3D")}
@@ -77,7 +85,7 @@ def extra_domain(pkg, name, R, lib, carts, scal):
         R.assume(scal["u"] ** 2 + scal["i"] ** 2 + scal["j"] ** 2 + scal["k"] ** 2 == 1)
 
 
-def cart_abstract(R, lib, v, sysm, tag):
+def cart_abstract(R, lib, v, sysm, tag, signed=False):
     """Cartesian components of v as abstraction symbols linked to their defining expressions: the
     Cartesian run then works on atoms (its own identities stay small), the links are used lazily"""
     _, coords = lanes.stored(v)
@@ -96,7 +104,8 @@ def cart_abstract(R, lib, v, sysm, tag):
             out.append(coords[3])
         else:
             tau = coords[3]
-            out.append(R.abstract(f"ct{tag}", tau * tau + out[0] * out[0] + out[1] * out[1] + out[2] * out[2], nonneg_root=True))
+            t2 = (lib.copysign(tau * tau, tau) if signed else tau * tau) + out[0] * out[0] + out[1] * out[1] + out[2] * out[2]
+            out.append(R.abstract(f"ct{tag}", t2, nonneg_root=True))
     return out
 
 
@@ -110,13 +119,24 @@ def _coord_names(system):
 SIGN_SPLIT = {("lorentz", "Et"), ("lorentz", "to_beta3")}
 
 
-def make_fn(pkg, name, module, sig, upper=None, momentum=(False, False), tsign=0, abstract=True):
+# unary Lorentz operations whose definition is finite for spacelike vectors (stored with a negative tau)
+SPACELIKE_UNARY = ("t", "t2", "tau", "tau2", "beta", "rapidity", "Et", "Et2", "Mt", "Mt2", "to_beta3", "is_timelike", "is_spacelike", "is_lightlike", "scale", "unit", "boostX_beta", "boostZ_gamma")
+
+
+def make_fn(pkg, name, module, sig, upper=None, momentum=(False, False), tsign=0, abstract=True, spacelike=False, mt2sign=0):
     """obligation for one dispatch_map entry.  upper: extra stored coordinates appended to every
     vector operand (exercises _wrap_result pass-through of a lower-dimensional operation)."""
     params = common.dispatch_params(module)
     systems, extras = common.split_signature(sig)
 
     def fn(R):
+        common.SIGNED_TAU = bool(spacelike)
+        try:
+            return fn_(R)
+        finally:
+            common.SIGNED_TAU = False
+
+    def fn_(R):
         lib = R.lib
         args_s, args_c, carts, scal = [], [], [], {}
         vi = 0
@@ -127,8 +147,15 @@ def make_fn(pkg, name, module, sig, upper=None, momentum=(False, False), tsign=0
                 if upper:
                     sysm = sysm + tuple(upper[vi])
                 mom = momentum[vi] if vi < len(momentum) else False
-                v = R.vec(sysm, str(vi + 1), momentum=mom)
-                c = cart_abstract(R, lib, v, sysm, str(vi + 1)) if (abstract and R.mode == "sym") else spec.cart(lib, v)
+                sl = spacelike and vi == 0 and sysm[-1] == "tau"
+                v = R.vec(sysm, str(vi + 1), momentum=mom, tau_nonneg=not sl)
+                if sl:
+                    # negative stored tau: the spacelike vector with t^2 = mag^2 - tau^2 > 0 (documented convention)
+                    _, st = lanes.stored(v)
+                    sp = spec.decode(lib, sysm[:2], st[:3])
+                    R.assume(st[3] < 0)
+                    R.assume(sp[0] * sp[0] + sp[1] * sp[1] + sp[2] * sp[2] - st[3] * st[3] > 0)
+                c = cart_abstract(R, lib, v, sysm, str(vi + 1), signed=sl) if (abstract and R.mode == "sym") else spec.cart(lib, v)
                 vc = R.build(lanes.CART[len(sysm) + 1], c, momentum=mom)
                 args_s.append(v)
                 args_c.append(vc)
@@ -154,6 +181,8 @@ def make_fn(pkg, name, module, sig, upper=None, momentum=(False, False), tsign=0
         extra_domain(pkg, name, R, lib, carts, scal)
         if tsign:
             R.assume(carts[0][3] > 0 if tsign > 0 else carts[0][3] < 0)
+        if mt2sign:
+            R.assume(spec.Mt2(lib, carts[0]) >= 0 if mt2sign > 0 else spec.Mt2(lib, carts[0]) < 0)
         if name in ("equal", "not_equal") and R.mode == "sym" and len(sig_vecs) == 2:
             # (rho, phi, theta, eta) -> Cartesian is injective on the representable domain
             s1, c1 = lanes.stored(sig_vecs[0])
@@ -236,6 +265,14 @@ def families(tier="quick"):
                     fams.append(_fam(f"{PID}/{pkg}.{name}/{sname}{tag}", pkg, name, module, sig, fn_impl, tsign=sgn))
                 continue
             fams.append(_fam(f"{PID}/{pkg}.{name}/{sname}", pkg, name, module, sig, fn_impl))
+            if pkg == "lorentz" and nvec == 1 and sname.endswith("|tau") and name in SPACELIKE_UNARY:
+                if name == "Mt2":
+                    # t^2 - z^2 < 0 is a recorded finding (known_findings.json): the obligation is split so that the
+                    # rest of the spacelike domain stays a full obligation
+                    fams.append(_fam(f"{PID}/{pkg}.{name}/{sname}@spacelike", pkg, name, module, sig, fn_impl, spacelike=True, mt2sign=1))
+                    fams.append(_fam(f"{PID}/{pkg}.{name}/{sname}@spacelike,Mt2<0", pkg, name, module, sig, fn_impl, spacelike=True, mt2sign=-1))
+                    continue
+                fams.append(_fam(f"{PID}/{pkg}.{name}/{sname}@spacelike", pkg, name, module, sig, fn_impl, spacelike=True))
             # higher-dimensional operands through the same entry (pass-through in _wrap_result)
             for hd in range(d + 1, 5):
                 ups = UPPERS[(d, hd)]
@@ -245,6 +282,8 @@ def families(tier="quick"):
                         if not full and ui != (k % len(ups)):
                             continue
                         fams.append(_fam(f"{PID}/{pkg}.{name}/{sname}+{'_'.join(up)}", pkg, name, module, sig, fnames + ["VectorObject%dD._wrap_result" % hd], upper=[up], momentum=(k % 2 == 1, False)))
+                        if up[-1] == "tau" and (pkg, name) not in PASS_THROUGH_EXCEPTIONS and name not in ("x", "y", "rho", "rho2", "phi", "z", "theta", "eta", "costheta", "cottheta", "mag", "mag2"):
+                            fams.append(_fam(f"{PID}/{pkg}.{name}/{sname}+{'_'.join(up)}@spacelike", pkg, name, module, sig, fnames + ["VectorObject%dD._wrap_result" % hd], upper=[up], momentum=(k % 2 == 1, False), spacelike=True))
                 elif nvec == 2 and (pkg, name) in BINARY_HIGHER:
                     hi = BINARY_HIGHER[(pkg, name)]
                     up1 = ups[k % len(ups)]
